@@ -63,6 +63,8 @@ def generate(rng, focus, tier="quick"):
     if rng.random() < 0.3:
         plan["wd"] = plan["wd"].lower() if rng.random() < 0.7 else plan["wd"].capitalize()
     # other clocks and schedules created and used earlier in the same process: they must not matter
+    # process-global standard-library state a host application may have changed
+    plan["firstweekday"] = rng.choice([0, 0, 0, 0, 6, 2])
     plan["before"] = []
     for _ in range(rng.choice([0, 0, 1, 2, 3])):
         bd = rng.randrange(cal.epoch_day(1999, 1, 1), cal.epoch_day(2024, 12, 1))
@@ -75,16 +77,23 @@ def generate(rng, focus, tier="quick"):
         plan["end"] = start - rng.choice([1, 60, 3600, DAY, 30 * DAY])
     elif r < 0.12:
         plan["fault"] = "bad_weekday"
-        plan["wd"] = rng.choice(["SAT", "SUN", "XYZ", "sat", "", "MONDAY", "WE"])
+        plan["wd"] = rng.choice(["SAT", "SUN", "XYZ", "sat", "", "MONDAY", "WE", "MON\n", "wed\n", " TUE", "FRI ", "Fri\n"])
     return plan
 
 
 def execute(plan, focus, trace=False):
+    import calendar as _calendar
     ctx = Ctx(focus, trace=trace)
+    old_fwd = _calendar.firstweekday()
     try:
+        if plan.get("firstweekday"):
+            _calendar.setfirstweekday(plan["firstweekday"])
+            ctx.fault("calendar_firstweekday_changed_by_host")
         _run(plan, ctx)
     except StopRun:
         pass
+    finally:
+        _calendar.setfirstweekday(old_fwd)
     return ctx
 
 
